@@ -86,6 +86,19 @@ class ConstantFolder(BlockPass):
         else:  # pragma: no cover
             raise NotImplementedError(str(value))
 
+    def try_eval_const(self, value):
+        """Evaluate a constant expression, if its value is defined.
+
+        Returns None when an operation is undefined for its constant
+        operands: division by zero, a negative shift amount or the
+        conversion of infinity or nan to an integer. Such an instruction is
+        not folded, what happens is decided at run time.
+        """
+        try:
+            return self.eval_const(value)
+        except (ZeroDivisionError, ValueError, OverflowError):
+            return None
+
     def on_block(self, block):
         instructions = list(block)
         count = 0
@@ -96,7 +109,9 @@ class ConstantFolder(BlockPass):
 
             if self.is_const(instruction):
                 # Now we can replace x = (4+5) with x = 9
-                cnst = self.eval_const(instruction)
+                cnst = self.try_eval_const(instruction)
+                if cnst is None:
+                    continue
                 block.insert_instruction(cnst, before_instruction=instruction)
                 instruction.replace_by(cnst)
                 count += 1
@@ -111,8 +126,10 @@ class ConstantFolder(BlockPass):
                     and not isinstance(instruction.ty, ir.FloatingPointTyp)
                 ):
                     # Now we can replace x = (y+5)+5 with x = y + 10
-                    a = self.eval_const(instruction.a.b)
-                    b = self.eval_const(instruction.b)
+                    a = self.try_eval_const(instruction.a.b)
+                    b = self.try_eval_const(instruction.b)
+                    if a is None or b is None:
+                        continue
                     assert a.ty is b.ty
                     value = cast(a.value + b.value, a.ty)
                     cn = ir.Const(value, "new_fold", a.ty)
@@ -134,8 +151,10 @@ class ConstantFolder(BlockPass):
                     and not isinstance(instruction.ty, ir.FloatingPointTyp)
                 ):
                     # Now we can replace x = (y-5)-5 with x = y - 10
-                    a = self.eval_const(instruction.a.b)
-                    b = self.eval_const(instruction.b)
+                    a = self.try_eval_const(instruction.a.b)
+                    b = self.try_eval_const(instruction.b)
+                    if a is None or b is None:
+                        continue
                     assert a.ty is b.ty
                     value = cast(a.value + b.value, a.ty)
                     cn = ir.Const(value, "new_fold", a.ty)
